@@ -212,6 +212,11 @@ class G:
         return [enc(ss), enc(tt), w, x]
 
     def ohg(self, nn=None, ne=None, ni=None, no=None, **kw):
+        if nn is None and ne is None and ni is None and no is None and self.r.random() < 0.05:
+            nodes, x, src, tgt = self.singleton_like(kw.get("labels", 2), kw.get("elabels", 3))
+            n = len(nodes)
+            enc = lambda l: [[[len(l)], len(l) + 1], [list(l), n]]
+            return [[list(src), n], [list(tgt), n], [enc(src), enc(tgt), nodes, [x]]]
         h = self.hg(nn, ne, **kw)
         n = len(h[2])
         if ni is None:
@@ -291,7 +296,25 @@ class G:
                 q1.append(b)
         return [nodes, edges, adj, [q0, q1]]
 
+    def singleton_like(self, labels=2, elabels=3):
+        """one hyperedge whose own lists are the interfaces, on exactly arity-many nodes — what `singleton` builds, but
+        with the nodes numbered in any order (and now and then one wire used twice)"""
+        a, b = self.r.randint(0, 3), self.r.randint(0, 3)
+        n = a + b
+        perm = list(range(n))
+        if self.r.random() < 0.8:
+            self.r.shuffle(perm)
+        src, tgt = perm[:a], perm[a:]
+        if n >= 2 and self.r.random() < 0.25:
+            l = self.r.choice([x for x in (src, tgt) if x])
+            l[self.r.randrange(len(l))] = self.r.randrange(n)
+        nodes = [self.r.randrange(labels) for _ in range(n)]
+        return nodes, self.r.randrange(elabels), src, tgt
+
     def lohg(self, ni=None, no=None, **kw):
+        if ni is None and no is None and not kw.get("nn") and not kw.get("ne") and self.r.random() < 0.05:
+            nodes, x, src, tgt = self.singleton_like(kw.get("labels", 2), kw.get("elabels", 3))
+            return [list(src), list(tgt), [nodes, [x], [[src, tgt]], [[], []]]]
         h = self.lhg(**kw)
         n = len(h[0])
         if ni is None:
